@@ -13,8 +13,10 @@ CVC5 = "/usr/bin/cvc5"
 
 class Prover:
     def __init__(self, timeout_ms=60000, cvc5_timeout_s=120, use_cvc5=True, int_first=False,
-                 int_timeout_ms=20000, arrays=None):
+                 int_timeout_ms=20000, arrays=None, uf_first=False, uf_timeout_ms=10000):
         self.timeout_ms = timeout_ms
+        self.uf_first = uf_first            # opt-in: try the obligation with * / % abstracted to uninterpreted functions first
+        self.uf_timeout_ms = uf_timeout_ms
         self.arrays = arrays                # None = detect per query; False/True = declared by the harness
         self.int_first = int_first          # try the exact integer-arithmetic translation first
         self.int_timeout_ms = int_timeout_ms
@@ -46,6 +48,13 @@ class Prover:
             if v == "sat":
                 return "sat", m
             # unknown / unsupported operator: the bit-vector portfolio decides
+        if self.uf_first:
+            t0 = time.time()
+            v = prove_uf_abstracted(pc, c, self.uf_timeout_ms)
+            self.stats["solver_s"] += time.time() - t0
+            self.stats["uf_" + v] = self.stats.get("uf_" + v, 0) + 1
+            if v == "unsat":
+                return "unsat", None
         t0 = time.time()
         arrays = self.arrays if self.arrays is not None else _has_arrays(list(pc) + [c])
         s = z3.SolverFor("QF_ABV" if arrays else "QF_BV")
@@ -88,6 +97,89 @@ class Prover:
             else:
                 self.stats["cvc5_unknown"] += 1
         return "unknown", None
+
+
+# ---------------------------------------------------------------------------------------------
+# Over-approximation for equivalence obligations: every non-linear operator application (division,
+# remainder, multiplication of two non-constant terms) is replaced by an application of one
+# uninterpreted function per operator and width.  Whatever holds for all functions holds for the
+# real operators, so 'unsat' transfers; anything else is inconclusive (the exact portfolio decides).
+# It proves "both sides compute the same thing from equal operands" by congruence, where
+# bit-blasting would have to prove two divider/multiplier circuits equivalent.
+_UF_OPS = {}
+for _n, _u in (("BSDIV", "sdiv"), ("BSDIV_I", "sdiv"), ("BUDIV", "udiv"), ("BUDIV_I", "udiv"), ("BSREM", "srem"),
+               ("BSREM_I", "srem"), ("BUREM", "urem"), ("BUREM_I", "urem"), ("BSMOD", "smod"), ("BSMOD_I", "smod")):
+    if hasattr(z3, "Z3_OP_" + _n):
+        _UF_OPS[getattr(z3, "Z3_OP_" + _n)] = _u
+
+
+def _uf(name, width, arity=2):
+    bv = z3.BitVecSort(width)
+    return z3.Function(f"uf!{name}!{width}", *([bv] * arity + [bv]))
+
+
+def uf_abstract(exprs):
+    """returns (abstracted expressions, number of abstracted applications)"""
+    memo = {}
+    count = [0]
+
+    def build(e, ch):
+        k = e.decl().kind()
+        if z3.is_bv(e):
+            if k in _UF_OPS and len(ch) == 2:
+                count[0] += 1
+                return _uf(_UF_OPS[k], e.size())(ch[0], ch[1])
+            if k == z3.Z3_OP_BMUL:
+                consts = [c for c in ch if z3.is_bv_value(c)]
+                rest = [c for c in ch if not z3.is_bv_value(c)]
+                if len(rest) >= 2:
+                    count[0] += 1
+                    f = _uf("mul", e.size())
+                    r = rest[0]
+                    for c in rest[1:]:
+                        r = f(r, c)
+                    for c in consts:
+                        r = c * r
+                    return r
+        if not ch:
+            return e
+        return e.decl()(*ch)
+
+    for root in exprs:
+        stack = [(root, False)]
+        while stack:
+            e, done = stack.pop()
+            i = e.get_id()
+            if i in memo:
+                continue
+            if not z3.is_app(e):
+                memo[i] = (e, e)
+                continue
+            ch = e.children()
+            if done:
+                memo[i] = (e, build(e, [memo[c.get_id()][1] for c in ch]))
+            else:
+                stack.append((e, True))
+                for c in ch:
+                    if c.get_id() not in memo:
+                        stack.append((c, False))
+    return [memo[e.get_id()][1] for e in exprs], count[0]
+
+
+def prove_uf_abstracted(pc, c, timeout_ms):
+    """'unsat' (pc => c holds for every interpretation of the abstracted operators, hence for the real
+    ones) | 'skip' (nothing to abstract) | 'unknown'"""
+    try:
+        exprs, n = uf_abstract([z3.simplify(f) for f in pc] + [c])
+    except z3.Z3Exception:
+        return "unknown"
+    if n == 0:
+        return "skip"
+    s = z3.Solver()
+    s.set("timeout", timeout_ms)
+    s.add(*exprs[:-1])
+    s.add(z3.Not(exprs[-1]))
+    return "unsat" if s.check() == z3.unsat else "unknown"
 
 
 def _has_arrays(exprs):
